@@ -264,6 +264,9 @@ end
 
 inductive DErr where
   | eof | badCode | badValue | badLen | utf8 | depth | custom
+  /-- the model's recursion budget ran out: an artefact of the model with no counterpart in the
+      implementation; `Theorems.C04.fuel_never_runs_out` shows `decode` never returns it -/
+  | fuel
 deriving Repr, DecidableEq
 
 /-- result of a decoding step: value, rest of the input, `elem_format_code` afterwards -/
@@ -388,7 +391,7 @@ mutual
       `remaining_depth` of the deserializer. -/
   def dec (fuel depth : Nat) (st : DSt) : Res (Value × DSt) :=
     match fuel with
-    | 0 => .error .custom
+    | 0 => .error .fuel
     | fuel + 1 =>
       let ec := st.ec
       let bs := st.rest
@@ -476,7 +479,7 @@ mutual
   /-- `count` consecutive values (list elements / map keys and values) -/
   def decN (fuel depth : Nat) (count : Nat) (st : DSt) : Res (List Value × DSt) :=
     match fuel with
-    | 0 => .error .custom
+    | 0 => .error .fuel
     | fuel + 1 =>
       match count with
       | 0 => pure ([], st)
@@ -488,7 +491,7 @@ mutual
       the first element must stay within `size` -/
   def decArr (fuel depth : Nat) (count : Nat) (st : DSt) (startLen size : Nat) : Res (List Value × DSt) :=
     match fuel with
-    | 0 => .error .custom
+    | 0 => .error .fuel
     | fuel + 1 =>
       match count with
       | 0 => pure ([], { st with ec := none })
@@ -499,9 +502,14 @@ mutual
         pure (v :: vs, s')
 end
 
+/-- recursion budget of the model: enough for the encoding of any value of that length (C03) and for
+    any input at all (C04: at most `MAX_NESTING_DEPTH` levels of at most `MAX_ARRAY_COUNT` entries) -/
+def decodeFuel (n : Nat) : Nat :=
+  (n + 1) * (MAX_ARRAY_COUNT + 2) + (MAX_NESTING_DEPTH + 1) * (MAX_ARRAY_COUNT + 3)
+
 /-- `from_slice::<Value>` -/
 def decode (bs : Bytes) : Res (Value × Bytes) := do
-  let (v, s) ← dec ((bs.length + 1) * (MAX_ARRAY_COUNT + 2)) MAX_NESTING_DEPTH
+  let (v, s) ← dec (decodeFuel bs.length) MAX_NESTING_DEPTH
     { rest := bs, ec := none, zw := MAX_ARRAY_COUNT }
   pure (v, s.rest)
 
